@@ -21,6 +21,7 @@ import random
 
 import numpy as np
 
+from .. import gen as gen_
 from . import losscommon as LC
 from . import losshist as LH
 
@@ -31,8 +32,8 @@ LEAN = {"module": "Pygom.Props.C06",
                      "Pygom.C06.unrollState_target", "Pygom.C06.unrollState_other", "Pygom.C06.earlier_outputs_unaffected",
                      "Pygom.C06.atStored_reproduces", "Pygom.C06.output_depends_on_held_values_only",
                      "Pygom.C06.replicate_observations_same_prediction"]}
-BUDGET = {"quick": {"cases": 1000, "broadcast": 50, "per_batch": 40, "history": 704},
-          "thorough": {"cases": 32000, "broadcast": 600, "per_batch": 60, "history": 7040}}
+BUDGET = {"quick": {"cases": 1000, "broadcast": 50, "per_batch": 40, "history": 704, "clock": 160, "large": 12, "scaled": 24},
+          "thorough": {"cases": 32000, "broadcast": 600, "per_batch": 60, "history": 7040, "clock": 3200, "large": 200, "scaled": 400}}
 RULE = ("random bounded models (gen_model, autonomous, 2-4 states, 1-4 parameters, short horizons) and catalogue models "
         "(SIR, SEIR, Lotka_Volterra, FitzHugh); theta, x0, uniform / non-uniform grids of 3-7 observation times; 1-3 observed "
         "states in random order; five loss classes with default / scalar / per-state / per-observation / full-matrix spread; "
@@ -58,8 +59,23 @@ RULE = ("random bounded models (gen_model, autonomous, 2-4 states, 1-4 parameter
         "with the same names, copy.deepcopy of a loss object; all four combinations of target_param / target_state; t0 != 0; "
         "theta as list / tuple / ndarray / numpy scalars; y, x0, t, weights, spread as float or int containers; 15 % of the scripts on a grid "
         "with replicate times, 15 % on a grid moved far from the time origin.  A history case "
-        "is non-trivial when at least two calls were judged against the reference for the values the object currently holds.")
-ASSUMPTIONS = ["an IntegrationError raised by an evaluation is not judged when scipy's own lsoda (scipy.integrate.ode on the oracle's right-hand "
+        "is non-trivial when at least two calls were judged against the reference for the values the object currently holds.  "
+        "ROUND D.  CLOCK cases (160 quick): models whose rates DEPEND ON t - losscommon.TD_CATALOGUE (SIR import / lock-down / vaccination "
+        "campaign / dosing chain / seeded state) with a window shape or a SMOOTH shape (seasonal forcing (1 + cos(2 pi (t - a)/P))/2, sin^2, a "
+        "Lorentz pulse), random models with periodic rates, first-order models with time-dependent coefficients (weights 6:3:2, 1 autonomous "
+        "control) - on a loss object whose clock does not start at zero: `shifted` = t0, the observation times and the window moved by tau in "
+        "{0.37, -1.75, 2.5, 7, 17.3, 30, 30.25, -13.2, 52.3, -50, 365.25, 1234.56, -400.6} (non-integer only for the random models, whose "
+        "forcing has period 1), `shifted-repeated` (with replicate times), `far` (+-738000 .., smooth shapes only); cost, residual, costIV, "
+        "all five classes, reference integrated in the real time (tags rates-depend-on-t:t0!=0, clock:t0=*).  A fifth of the HISTORY scripts "
+        "run on such a model with a shifted clock (shared with C07).  LARGE models (12 quick; losscommon.LARGE_CATALOGUE, num_state x "
+        "num_param = 104 .. 112) and HEAD-COUNT models (24 quick; SIR at N = 1e6 / 1e8, SIR_norm with beta = 5e-9), half of the latter and an "
+        "eighth of the clock cases with weights / spreads of EXTREME but valid magnitude (weights x 1e-6 / 1e-3 / 1e4, sigma x 1e-3 / 1e4, "
+        "Gamma shape and NegBinom k x 1e-2 / 1e3).  Tolerances are relative per entry: the absolute floor of the cost tolerance is "
+        "min(1e-3, cost when the prediction is off by a thousandth), the residual is compared entry by entry relative to |w| (1 + |yhat|).")
+ASSUMPTIONS = ["time-dependent models: a wrong cost / residual is reported only after scipy's own lsoda (oracle right-hand side, pygom's tolerances, no "
+               "pygom) has been seen to be within 1e-8 (1+|ref|) of the reference on the instance - observed once: a right-hand side that is exactly "
+               "zero at x0 until a dosing window opens (zero initial state and a zero rate) lets lsoda grow its step and stride over the window",
+               "an IntegrationError raised by an evaluation is not judged when scipy's own lsoda (scipy.integrate.ode on the oracle's right-hand "
                "side, no pygom) fails on the same instance (observed: derivative exactly zero at x0, far negative t0, increments that are not "
                "representable): tagged unjudged:scipy-lsoda-refuses-this-instance; on grids far from the origin a wrong cost is reported only "
                "after scipy's own lsoda has been seen to be within 1e-8 (1+|ref|) of the reference on the instance",
@@ -94,10 +110,16 @@ SPREAD_RANGE = {"Normal": (0.3, 2.0), "Gamma": (1.0, 5.0), "NegBinom": (0.5, 5.0
 # ulp apart, an observation at t0, a one-point grid.  What the unchanged pygom refuses (IntegrationError on a zero-length first
 # step, the constructor's trial integration on a one-ulp step, a one-point grid with several observed states) is tagged, not judged.
 GRID_VARIANTS = [("plain", 8), ("repeated", 5), ("far", 3), ("far-repeated", 2), ("tiny-horizon", 2), ("ulp", 1), ("at-t0", 1), ("one-point", 2)]
+# round d - the CLOCK of the loss object: t0 != 0 (positive / negative / non-integer / large; not a whole number of periods of any
+# forcing) combined with a model whose rates depend on t.  "shifted": t0 and the observation times (and the window of a time-dependent
+# catalogue model) moved by tau; "shifted-repeated": the same with replicate observation times
+CLOCK_GRID_VARIANTS = [("shifted", 8), ("shifted-repeated", 2), ("far", 2)]
+CLOCK_MODEL_VARIANTS = [("td-catalogue", 6), ("time-dependent", 3), ("affine-time", 2), ("standard", 1)]
 T0_FAR = [738000.0, -738000.0, 10000.0, -10000.0, 1.0e6, -123456.5, -1.0e6]
 MODEL_VARIANTS = [("standard", 12), ("time-dependent", 3), ("affine", 4), ("one-state", 1)]
 UNSUPPORTED = {"at-t0": ("IntegrationError", "InputError"), "ulp": ("IntegrationError", "InputError"), "one-point": ("AssertionError",),
-               "repeated": ("InputError", "IntegrationError"), "far-repeated": ("InputError", "IntegrationError")}
+               "repeated": ("InputError", "IntegrationError"), "far-repeated": ("InputError", "IntegrationError"),
+               "shifted-repeated": ("InputError", "IntegrationError")}
 
 
 def _custom_setup(r, kind, want_order):
@@ -107,6 +129,8 @@ def _custom_setup(r, kind, want_order):
     from . import c02 as C2
     if kind == "affine":
         spec, meta = C2.gen_affine_spec(r, r.choice(C2.AFFINE))
+    elif kind == "affine-time":
+        spec, meta = C2.gen_affine_spec(r, r.choice(["timecoef", "timecoef", "mixed"]))
     elif kind == "one-state":
         spec, meta = gen.gen_model(r, min_states=1, max_states=1, max_params=2, min_events=1, max_events=2, allow_time=r.random() < 0.3,
                                    max_mag=2, allow_range=False, allow_derived=False)
@@ -188,11 +212,17 @@ def _ulp_after(v):
 
 
 def _apply_grid_variant(r, s, variant):
+    if variant in ("shifted", "shifted-repeated"):
+        # non-integer shifts for the random models (their periodic rates have period 1 or 2 pi / k: an integer t0 would be a whole number of periods)
+        pool = LC.T0_SHIFTS if s["model"]["src"] == "td" else [v for v in LC.T0_SHIFTS if not float(v).is_integer()]
+        LC.shift_setup(s, r.choice(pool))
+    elif variant in ("far", "far-repeated") and s["model"]["src"] == "td":
+        LC.shift_setup(s, r.choice(T0_FAR))
     times, t0 = list(s["times"]), float(s["t0"])
-    if variant in ("far", "far-repeated"):
+    if variant in ("far", "far-repeated") and s["model"]["src"] != "td":
         t0 = r.choice(T0_FAR)
         times = [t0 + v for v in times]
-    if variant in ("repeated", "far-repeated"):
+    if variant in ("repeated", "far-repeated", "shifted-repeated"):
         for _ in range(r.randint(1, 3)):
             j = r.randrange(len(times))
             times = times[:j + 1] + [times[j]] + times[j + 1:]
@@ -210,10 +240,25 @@ def _apply_grid_variant(r, s, variant):
     return s
 
 
-def _loss_case(r, want_order=None, model_variant=None, grid_variant=None):
+def _loss_case(r, want_order=None, model_variant=None, grid_variant=None, extreme=False):
     from .. import gen
     mv = model_variant or gen.wchoice(r, MODEL_VARIANTS)
-    s = LC.gen_setup(r, want_order=want_order) if mv == "standard" else _custom_setup(r, mv, want_order)
+    if mv == "td-catalogue":
+        gv_ = grid_variant or gen.wchoice(r, CLOCK_GRID_VARIANTS)
+        # far from the origin only with the smooth shapes (a jump of the rate at |t| = 1e6 is another question)
+        s = LC.gen_setup_td_shifted(r, tau=0.0, smooth_share=1.0 if gv_ == "far" else 0.5)
+        if want_order == "ascending":
+            s["obs"] = sorted(s["obs"], key=s["states"].index)
+        elif want_order == "not-ascending" and len(s["obs"]) >= 2:
+            s["obs"] = sorted(s["obs"], key=s["states"].index, reverse=True)
+        s["obs"] = s["obs"][:3]
+        grid_variant = gv_
+    elif mv == "large":
+        s = LC.gen_setup_large(r)
+    elif mv == "scaled":
+        s = LC.gen_setup_scaled(r)
+    else:
+        s = LC.gen_setup(r, want_order=want_order) if mv == "standard" else _custom_setup(r, mv, want_order)
     s["model_variant"] = mv
     # boundary values: a parameter / an initial state that is exactly zero (data-generating and evaluated value alike)
     if r.random() < 0.1:
@@ -227,6 +272,8 @@ def _loss_case(r, want_order=None, model_variant=None, grid_variant=None):
     s = _apply_grid_variant(r, s, grid_variant or gen.wchoice(r, GRID_VARIANTS))
     n, p = len(s["times"]), len(s["obs"])
     tp, ts = LC.gen_targets(r, s["params"], s["states"], p_tp=0.5, p_ts=0.35)
+    if s.get("fixed_params") and tp is None:
+        tp = [k for k in s["params"] if k not in s["fixed_params"]]
     spreads = {}
     for cls, (lo, hi) in SPREAD_RANGE.items():
         k, v = LC.gen_shaped(r, n, p, lo, hi, allow_none=False)
@@ -236,9 +283,23 @@ def _loss_case(r, want_order=None, model_variant=None, grid_variant=None):
     w = LC.gen_shaped(r, n, p, 0.5, 2.0)
     if w[0] == "matrix" and r.random() < 0.3:       # some exact zeros (never all)
         w[1][r.randrange(n)][r.randrange(p)] = 0.0 if n * p > 1 else w[1][0][0]
-    return {"kind": "loss", "setup": s, "weights": list(w), "spreads": spreads, "target_param": tp, "target_state": ts,
+    case = {"kind": "loss", "setup": s, "weights": list(w), "spreads": spreads, "target_param": tp, "target_state": ts,
             "data": r.choice(["truth", "perturbed", "perturbed"]), "noise_seed": r.getrandbits(32), "style": r.randrange(30),
             "unweighted_call": r.random() < 0.2, "rejected_inputs": r.random() < 0.15}
+    if extreme:
+        # weights / spreads of extreme but valid magnitude: weights of 1e-6 (head counts normalised in the loss) or 1e4, sigma of 1e-3 or 1e4,
+        # Gamma shape / NegBinom dispersion of 1e-2 or 1e3
+        scale_ = lambda v, c: (None if v is None else [scale_(x, c) for x in v] if isinstance(v, list) else float("%.6g" % (v * c)))
+        cw = r.choice([1e-6, 1e-3, 1e4])
+        if case["weights"][0] != "none":
+            case["weights"][1] = scale_(case["weights"][1], cw)
+        else:
+            case["weights"] = ["scalar", cw]
+        for cls_, c_ in (("Normal", r.choice([1e-3, 1e4])), ("Gamma", r.choice([1e-2, 1e3])), ("NegBinom", r.choice([1e-2, 1e3]))):
+            if spreads[cls_][0] != "default":
+                spreads[cls_][1] = scale_(spreads[cls_][1], c_)
+        case["extreme"] = True
+    return case
 
 
 def _rand_x(r, n, p):
@@ -276,6 +337,16 @@ def make_cases(rng, tier, budget):
     for i in range(budget.get("history", 0)):
         r = random.Random(rng.getrandbits(64))
         cases.append(LH.gen_history(r, i + shift, HIST_JUDGED))
+    # round d (drawn after everything above): the clock of the loss object x time-dependent models; large models; head counts
+    for i in range(budget.get("clock", 0)):
+        r = random.Random(rng.getrandbits(64))
+        cases.append(_loss_case(r, want_order=["ascending", "not-ascending", None][i % 3], model_variant=gen_.wchoice(r, CLOCK_MODEL_VARIANTS),
+                                grid_variant=gen_.wchoice(r, CLOCK_GRID_VARIANTS), extreme=i % 8 == 7))
+    for i in range(budget.get("large", 0)):
+        cases.append(_loss_case(random.Random(rng.getrandbits(64)), model_variant="large", grid_variant=["plain", "plain", "shifted", "repeated"][i % 4]))
+    for i in range(budget.get("scaled", 0)):
+        cases.append(_loss_case(random.Random(rng.getrandbits(64)), model_variant="scaled", grid_variant=["plain", "plain", "shifted", "repeated"][i % 4],
+                                extreme=i % 2 == 1))
     return cases
 
 
@@ -365,7 +436,30 @@ def sig(site, cls, setup, tp, wkind):
         s += ":weights=" + wkind
     if setup.get("grid_variant", "plain") != "plain":
         s += ":grid=" + setup["grid_variant"]
+    if setup["model"]["src"] in ("td", "large", "scaled"):
+        s += ":model=" + {"td": "time-dependent", "large": "large", "scaled": "head-count"}[setup["model"]["src"]]
     return s
+
+
+def cost_floor(cls, y, yhat, w, spread):
+    """the absolute floor of the cost tolerance (losscommon.cost_tolerance adds rel x (floor + sum |terms|)): 1e-3 for costs of ordinary
+    size; for costs that are small BY SCALE (weights of 1e-6 on head counts, a square cost at the truth) the size of the cost when the
+    prediction is off by a thousandth - a floor of 1e-3 would hide every error there"""
+    d = 1e-3 * (1.0 + np.abs(yhat))
+    return float(min(1e-3, np.sum(np.abs(LC.ref_terms(cls, y, yhat + d, w, spread)))))
+
+
+def cost_tol(cls, y, yhat, w, spread):
+    return LC.cost_tolerance(cls, y, yhat, w, spread) - 1e-6 * (1e-3 - cost_floor(cls, y, yhat, w, spread))
+
+
+def residual_close(res, exp, W, yhat):
+    """|res - exp| <= 1e-6 max(|res|, |exp|) + |w| 1e-7 (1 + |yhat|) entry by entry (the residual is w (y - yhat); pygom integrates at 1e-10):
+    relative to the weight, so that weights of 1e-6 (head counts normalised in the loss) do not hide an error"""
+    res, exp = np.asarray(res, float), np.asarray(exp, float)
+    if res.shape != exp.shape:
+        return False
+    return bool(np.all(np.abs(res - exp) <= 1e-6 * np.maximum(np.abs(res), np.abs(exp)) + 1e-7 * np.abs(W) * (1.0 + np.abs(yhat))))
 
 
 def theta_arg(setup, tp, theta):
@@ -378,18 +472,25 @@ def run_loss(case):
     from .. import leanio
     s = case["setup"]
     mism, viol, tags = [], [], []
-    model, rhs, err = LC.build_model(s)
+    model, rhs, err = LC.build_model_any(s)
     if err:
         return {"nontrivial": False, "mismatches": [{"what": "build", "detail": err}], "violations": [], "tags": ["build_error"]}
     states, params, obs = s["states"], s["params"], s["obs"]
     tp, ts = case["target_param"], case["target_state"]
     n, p = len(s["times"]), len(obs)
+    if s["model"]["src"] in ("td", "large", "scaled"):
+        tags += ["%s-model:%s" % (s["model"]["src"], s["model"]["name"])] + (["td-shape:" + s["model"]["shape"]] if s["model"]["src"] == "td" else [])
+    if s.get("shift") is not None:
+        tags.append("clock:t0=%s" % ("large" if abs(s["t0"]) >= 300 else "negative" if s["t0"] < 0 else "positive") + (":integer" if float(s["t0"]).is_integer() else ":non-integer"))
+    timedep = s["model"]["src"] == "td" or s.get("model_variant") in ("time-dependent", "affine-time") or "periodic" in (s["model"].get("meta") or {}).get("kinds", [])
+    if timedep:
+        tags.append("rates-depend-on-t" + (":t0!=0" if s["t0"] != 0 else ":t0=0"))
     idx = [states.index(o) for o in obs]
     tags += ["src:" + s["model"]["src"] + (":" + s["model"]["name"] if s["model"]["src"] == "catalogue" else ""),
              "grid:" + s["grid"], "p=%d" % p, "order:" + (LC.order_class(states, obs) if p > 1 else "single"),
              "grid-variant:" + s.get("grid_variant", "plain"), "model-variant:" + s.get("model_variant", "standard"),
              "weights:" + case["weights"][0], "target_param:" + ("all" if tp is None else LC.order_class(params, tp) if len(tp) > 1 else "one"),
-             "target_state:" + ("none" if ts is None else "subset"), "data:" + case["data"]]
+             "target_state:" + ("none" if ts is None else "subset"), "data:" + case["data"]] + (["extreme-weights-and-spreads"] if case.get("extreme") else [])
 
     # name -> column mapping, exactly, against the driver (public API)
     lr = leanio.driver().call({"op": "sensIndex", "states": states, "params": params, "obs": obs, "target_param": tp, "target_state": ts})
@@ -408,10 +509,10 @@ def run_loss(case):
     x0_iv = list(s["x0"])
     for k in (ts if ts is not None else states):
         x0_iv[states.index(k)] = s["x0_eval"][states.index(k)]
-    bx = LC.box(s)
-    tr_true = LC.ref_traj(rhs, th_true, s["x0"], s["t0"], s["times"], **bx)
-    tr_eval = LC.ref_traj(rhs, th_eval, s["x0"], s["t0"], s["times"], **bx)
-    tr_iv = LC.ref_traj(rhs, th_eval, x0_iv, s["t0"], s["times"], **bx)
+    bx = LC.box_any(s)
+    tr_true = LC.ref_traj_any(s, rhs, th_true, s["x0"], s["t0"], s["times"], **bx)
+    tr_eval = LC.ref_traj_any(s, rhs, th_eval, s["x0"], s["t0"], s["times"], **bx)
+    tr_iv = LC.ref_traj_any(s, rhs, th_eval, x0_iv, s["t0"], s["times"], **bx)
     if tr_true is None or tr_eval is None or tr_iv is None:
         tags.append("reference-failed-or-outside-box")
         return {"nontrivial": False, "mismatches": mism, "violations": viol, "tags": tags}
@@ -519,12 +620,12 @@ def run_loss(case):
         def check(site, got, ref_tr, w_used, what):
             yhat = ref_tr[:, idx]
             ref = LC.ref_cost(cls, y, yhat, w_used, spread)
-            tol = LC.cost_tolerance(cls, y, yhat, w_used, spread)
+            tol = cost_tol(cls, y, yhat, w_used, spread)
             if np.isfinite(got):
                 margins.append(abs(float(got) - ref) / tol)
             if not np.isfinite(got) or abs(float(got) - ref) > tol:
                 th_x = [(th_, x_) for th_, x_, tr_ in ((th_true, s["x0"], tr_true), (th_eval, s["x0"], tr_eval), (th_eval, x0_iv, tr_iv)) if tr_ is ref_tr]
-                if th_x and gv in ("far", "far-repeated") and scipy_lsoda_off(rhs, th_x[0][0], th_x[0][1], s["t0"], s["times"], ref_tr):
+                if th_x and (gv in ("far", "far-repeated") or timedep) and scipy_lsoda_off(rhs, th_x[0][0], th_x[0][1], s["t0"], s["times"], ref_tr):
                     tags.append("unjudged:scipy-lsoda-inaccurate-on-this-instance")
                     return True
                 viol.append({"what": "%s of %sLoss is not the %s loss of the reference trajectory" % (what, cls, cls), "signature": sg(site),
@@ -536,9 +637,9 @@ def run_loss(case):
             c_true = obj.cost(theta_arg(s, tp, th_true))
             check("cost", c_true, tr_true, W, "cost(theta*)")
             if case["data"] == "truth" and cls == "Square":
-                scale = 1.0 + float(((W * y) ** 2).sum())
+                scale = float(((W * (1.0 + np.abs(y))) ** 2).sum())
                 tags.append("zero-at-truth")
-                if not (c_true <= 1e-10 * scale):
+                if not (c_true <= 1e-10 * scale) and not (timedep and scipy_lsoda_off(rhs, th_true, s["x0"], s["t0"], s["times"], tr_true)):
                     viol.append({"what": "square cost at the data-generating parameters is not zero", "signature": sg("cost-at-truth"),
                                  "detail": "cost %r scale %r" % (float(c_true), scale)})
             c_eval = obj.cost(theta_arg(s, tp, th_eval))
@@ -550,7 +651,7 @@ def run_loss(case):
             exp = (y - tr_eval[:, idx]) * W
             if res.size == exp.size:
                 res = res.reshape(exp.shape)
-            if not LC.rel_close(res, exp, 1e-6, 1e-7 * (1.0 + float(np.abs(exp).max()))):
+            if not residual_close(res, exp, W, tr_eval[:, idx]) and not (timedep and scipy_lsoda_off(rhs, th_eval, s["x0"], s["t0"], s["times"], tr_eval)):
                 viol.append({"what": "residual(theta) of %sLoss is not (y - reference) * w" % cls, "signature": sg("residual"),
                              "detail": "got %s expected %s" % (np.asarray(res).tolist(), exp.tolist())})
             # costIV: theta followed by the (target) initial values
@@ -593,7 +694,7 @@ def judge_history(ev):
     out = []
     if fn in ("cost", "costIV"):
         ref = LC.ref_cost(cls, d["y"], yhat, d["W"], d["spread"])
-        tol = LC.cost_tolerance(cls, d["y"], yhat, d["W"], d["spread"])
+        tol = cost_tol(cls, d["y"], yhat, d["W"], d["spread"])
         got = ev["got"]
         if not np.isscalar(got) and np.size(got) != 1:
             return [{"what": "%s of %sLoss is not a number" % (fn, cls), "class": "not-scalar", "detail": repr(got)[:200]}]
@@ -606,7 +707,7 @@ def judge_history(ev):
         res = np.asarray(ev["got"], float)
         if res.size == exp.size:
             res = res.reshape(exp.shape)
-        if not LC.rel_close(res, exp, 1e-6, 1e-7 * (1.0 + float(np.abs(exp).max()))):
+        if not residual_close(res, exp, d["W"], yhat):
             out.append({"what": "%s of %sLoss is not (y - reference) * w for the values the object holds" % (fn, cls),
                         "detail": "got %s expected %s" % (np.asarray(res).tolist(), exp.tolist())})
     return out
